@@ -31,7 +31,9 @@ EXPLANATION = ("Theorems: checkCertConstraint = declarative attribute condition 
                "{\"\",a,b,*} on both sides plus random lists; (b) CertificateConstraint.Check and (c) Step.CheckCertConstraints on freshly "
                "generated real ECDSA certificate chains with pools built by LoadLayoutCertificates and ids from Layout.RootCAIDs. "
                "Oracle: naive three-valued Go predicate written from the property text over the generator's requested attributes and "
-               "chain intent; where the text is silent only model = implementation is compared.")
+               "chain intent; where the text is silent only model = implementation is compared. Additional failing-input search: "
+               "Go native (coverage-guided) fuzzing of checkCertConstraint and CertificateConstraint.Check against a Go transcription "
+               "of C07_attr_spec / C07_constraint_spec.")
 
 
 def _attr_level(ctx, binp, corr, maxlen, nrandom, shard):
@@ -79,6 +81,23 @@ def correspondence(ctx):
     V.evaluate_case_file(ctx, out, ['model.CertConstraint'], corr=corr, max_samples=2)
     # (a) attribute level
     _attr_level(ctx, binp, corr, 3 if quick else 4, 1000 if quick else 20000, 400 if quick else 2500)
+    # coverage-guided differential fuzzing against the Go transcription of C07_attr_spec / C07_constraint_spec: the fuzzer
+    # sees the library's coverage, so a count comparison, a cache or a redaction is a branch it tries to reach
+    # (failing-input search only, never the proof)
+    secs = (8, 6) if quick else (120, 90)
+    corr.extra['fuzz_seconds'] = sum(secs)
+    for target, klass, sec, what in [
+            ('FuzzAttrConstraint', 'fuzz-attr-constraint', secs[0],
+             'coverage-guided differential fuzzing found constraint and value lists on which checkCertConstraint differs from C07_attr_spec'),
+            ('FuzzConstraintCheck', 'fuzz-constraint-check', secs[1],
+             'coverage-guided differential fuzzing found a constraint on which CertificateConstraint.Check differs from C07_constraint_spec for a pre-built certificate')]:
+        f = ctx.go_fuzz('c07', target, sec)
+        if f:
+            corr.violations.append({'klass': klass, 'case': {'id': 'fuzz', 'klass': klass,
+                                                             'input': {'entry': 'fuzz', 'target': target,
+                                                                       'go_fuzz_corpus_file': f['corpus_file'] or '(a seed-corpus entry of harness/c07/fuzz_test.go failed: the input is printed in the message)'}},
+                                    'impl': f['message'], 'expected': 'the Go transcription of the C07 specification in harness/c07/fuzz_test.go',
+                                    'what': what})
     corr.exhaustive = False
     corr.rule = ("certificate scenarios: fresh ECDSA P-256 chains (self-made root, 0-2 intermediates each placed in the layout / handed in "
                  "by the caller / both / missing, 1-3 root CAs in the layout; leaf valid / expired / not yet valid; foreign root, foreign root "
@@ -118,6 +137,14 @@ def search(ctx, why):
 
 
 def replay(ctx, case):
+    inp = (case.get('case', case) or {}).get('input') or {}
+    if isinstance(inp, dict) and inp.get('entry') == 'fuzz':
+        print('failing input of the fuzz target %s (Go corpus file format; lists are ","-separated, one trailing "," dropped):\n%s'
+              % (inp.get('target'), inp.get('go_fuzz_corpus_file')))
+        print('re-run: save it as harness/c07/testdata/fuzz/%s/replay and run `go test -tags verif -run %s/replay ./c07` in /verif/harness'
+              % (inp.get('target'), inp.get('target')))
+        print(case.get('impl', ''))
+        return
     binp = ctx.go_build('c07')
     p = os.path.join(ctx.dir, 'replay_case.json')
     json.dump(case.get('case', case), open(p, 'w'))
